@@ -332,6 +332,8 @@ def normalise_fn(text, log=None, result_name="r_", signature_only=False):
                 close = match_close(toks, j)
                 q = j + 1
                 n2 = 0
+                tail_closers = []
+                open_order = []
                 while q < close:
                     x = toks[q]
                     at_stmt_start = toks[q - 1].text in ("{", ";", "}")
@@ -349,6 +351,7 @@ def normalise_fn(text, log=None, result_name="r_", signature_only=False):
                             cond = text[toks[q + 1].start:toks[b - 1].end]
                             edits.append((toks[q].start, toks[bc].end, "if !(%s) {" % cond))
                             n2 += 1
+                            open_order.append("N2")
                             if log is not None:
                                 log.append({"rule": "N2", "loop": k, "cond": cond})
                             q = bc + 1
@@ -361,12 +364,45 @@ def normalise_fn(text, log=None, result_name="r_", signature_only=False):
                                 b2 += 1
                             q = match_close(toks, b2) + 1
                         continue
+                    if x.kind == "ident" and x.text == "let" and at_stmt_start:
+                        # N5: `let P = E else { S continue; };` followed by the rest R of the body
+                        #     => `if let P = E {` R `} else { S }`
+                        dd = 0
+                        e = q + 1
+                        els = None
+                        while e < close:
+                            tx = toks[e].text
+                            if tx in ("(", "[", "{"):
+                                e = match_close(toks, e)
+                            elif tx == ";":
+                                break
+                            elif tx == "else" and toks[e + 1].text == "{":
+                                els = e
+                                break
+                            e += 1
+                        if els is not None:
+                            bo = els + 1
+                            bc = match_close(toks, bo)
+                            if toks[bc + 1].text == ";" and toks[bc - 1].text == ";" and toks[bc - 2].text == "continue":
+                                head = text[toks[q].start:toks[els - 1].end]          # `let P = E`
+                                s_text = text[toks[bo].end:toks[bc - 2].start].strip()  # S (without the continue)
+                                edits.append((toks[q].start, toks[bc + 1].end, "if %s {" % head))
+                                tail_closers.append("} else { %s }" % s_text)
+                                open_order.append("N5")
+                                if log is not None:
+                                    log.append({"rule": "N5", "loop": k, "head": head, "else_body": s_text})
+                                q = bc + 2
+                                continue
                     if x.kind == "punct" and x.text in OPEN:
                         q = match_close(toks, q) + 1
                         continue
                     q += 1
-                if n2:
-                    edits.append((toks[close].start, toks[close].start, "}" * n2 + "\n" + lind))
+                if n2 or tail_closers:
+                    # closers are emitted innermost first: the wrappers were opened in source order
+                    closers = []
+                    for kind_ in reversed(open_order):
+                        closers.append("}" if kind_ == "N2" else tail_closers.pop())
+                    edits.append((toks[close].start, toks[close].start, " ".join(closers) + "\n" + lind))
                 expr_start = toks[in_tok + 1].start
                 if toks[i + 1].kind == "punct" and toks[i + 1].text == "&":
                     pat = text[toks[i + 2].start:toks[in_tok - 1].end]
@@ -636,6 +672,32 @@ def invert_n2(s, conds):
         if s[e + 1] != "}":
             raise ExtractError("N2 inverse: wrapper does not end the loop body")
         s = s[:hit] + ["if"] + cond + ["{", "continue", ";", "}"] + s[hit + n:e] + s[e + 1:]
+    return s
+
+
+def invert_n5(s, rules):
+    """`if let P = E { R } else { S }` closing the loop body  =>  `let P = E else { S continue ; } ; R`"""
+    for r in rules:
+        head = [t.text for t in code_tokens(r["head"])]
+        sbody = [t.text for t in code_tokens(r["else_body"])]
+        pat = ["if"] + head + ["{"]
+        i = _find_seq(s, pat)
+        if i < 0:
+            raise ExtractError("N5 inverse: `if %s {` not found" % r["head"])
+        d = 0
+        e = i + len(pat) - 1
+        for e in range(i + len(pat) - 1, len(s)):
+            if s[e] in ("(", "[", "{"):
+                d += 1
+            elif s[e] in (")", "]", "}"):
+                d -= 1
+                if d == 0:
+                    break
+        tail = ["else", "{"] + sbody + ["}"]
+        if s[e + 1:e + 1 + len(tail)] != tail:
+            raise ExtractError("N5 inverse: else branch does not match the recorded one")
+        inner = s[i + len(pat):e]
+        s = s[:i] + head + ["else", "{"] + sbody + ["continue", ";", "}", ";"] + inner + s[e + 1 + len(tail):]
     return s
 
 
